@@ -25,6 +25,7 @@ def cases(draw):
         ctxs.append({
             "m": m,
             "streamline": draw(st.integers(0, 3)) == 0,
+            "debug": draw(st.integers(0, 4)) == 0,  # verbose mode: must not change what is computed
             "reuse": draw(st.integers(0, 2)) == 0,  # re-enter the previous Calibration object instead of a fresh one
             "batches": draw(st.lists(st.tuples(st.integers(-3, 3), st.sampled_from(["normal", "normal", "normal", "absmax-is-qmax", "same"])), min_size=1, max_size=4)),
         })
@@ -95,6 +96,13 @@ def scale_product_term(qm, inp_scale, x_in, dtype):
 
 
 def exec_case(case):
+    import contextlib, io
+
+    with contextlib.redirect_stdout(io.StringIO()):  # debug=True contexts print
+        return _exec_case(case)
+
+
+def _exec_case(case):
     with M.repeatable_kernels("conv" in case["model"]):
         return _exec_case(case)
 
@@ -135,7 +143,7 @@ def _exec_case(case):
                 ctx, mom = prev_ctx  # the same object entered again: its own momentum applies
             else:
                 mom = cx["m"]
-                ctx = Calibration(momentum=mom, streamline=cx["streamline"])
+                ctx = Calibration(momentum=mom, streamline=cx["streamline"], debug=cx.get("debug", False))
             prev_ctx = (ctx, mom)
             momenta.append(mom)
             with torch.set_grad_enabled(not case["no_grad"]):
